@@ -662,7 +662,7 @@ func genSys(c *ctx) {
 					d.SetBroadcast()
 				}
 				if c.rng.Intn(5) == 0 {
-					d.UpdateOption(dhcpv4.OptGeneric(dhcpv4.OptionRelayAgentInformation, []byte{1, 2, 0xaa, 0xbb}))
+					d.UpdateOption(dhcpv4.OptGeneric(dhcpv4.OptionRelayAgentInformation, [][]byte{{1, 2, 0xaa, 0xbb}, {1, 2, 0xaa, 0xbb}, {11, 4, 10, 9, 9, 9}, {1, 1, 7, 11, 4, 192, 0, 2, 200, 5, 4, 10, 0, 0, 1}}[c.rng.Intn(4)]))
 				}
 				if c.rng.Intn(5) == 0 {
 					d.UpdateOption(dhcpv4.OptGeneric(dhcpv4.OptionClientIdentifier, []byte{1, 2, 0, 0, 0, 0, byte(i)}))
